@@ -135,7 +135,7 @@ func runMultiOnce(c Case) (res obs.Result, raced bool) {
 	disableRetry := r.Chance(1, 5)
 	delays := genDelays(r)
 	if x != nil {
-		maxRedir, disableRetry, delays = x.Max, false, []int64{0, 0, 0}
+		maxRedir, disableRetry, delays = x.Max, false, append([]int64{}, xPolicies[x.Policy]...)
 	}
 	dlog := &ro.ConsultLog{}
 	cli, err := rueidis.NewClient(rueidis.ClientOption{InitAddress: []string{l.prims[0]}, DialCtxFn: l.cl.Dial, DisableCache: true, PipelineMultiplex: -1,
@@ -173,6 +173,12 @@ func runMultiOnce(c Case) (res obs.Result, raced bool) {
 		st := []fc.Step{{Kind: x.Step, Addr: l.prims[(o+1)%nprim]}}
 		if x.Next != "" {
 			st = append(st, fc.Step{Kind: x.Next, Addr: l.prims[(o+2)%nprim]})
+		}
+		if len(x.Steps) > 0 {
+			st = st[:0]
+			for j, k := range x.Steps {
+				st = append(st, fc.Step{Kind: k, Addr: l.prims[(o+1+j)%nprim]})
+			}
 		}
 		l.cl.SetScript(cmds[x.At].argv, st...)
 		scripts[x.At] = stepsDesc(st)
@@ -353,6 +359,7 @@ func runMultiOnce(c Case) (res obs.Result, raced bool) {
 		checkTx(&res, cmds, arrivals, byArgv)
 	}
 	if *propFlag == "C28" {
+		attemptsOracle(&res, arrivals, byArgv, dlog.Calls())
 		// a member of a MULTI…EXEC block is legitimately re-sent with its block when another member was
 		// redirected; the per-member policy check applies when no redirect touched the block
 		redirected := false
@@ -474,6 +481,68 @@ func retryOracleBatch(res *obs.Result, b bcmd, retryOn bool, cons []ro.Consult, 
 		}
 		if why != "" && res.Oracle == "" {
 			res.Oracle, res.Site, res.Class = fmt.Sprintf("batch member %q re-sent after %s: %s", strings.Join(b.argv, " "), ticks[i], why), "cluster.go:doresultfn", "batch-retry-policy"
+		}
+	}
+}
+
+// attemptsOracle: clusterClient.DoMulti keeps one attempt counter per call. It advances after every round that queued a
+// retry and saw no redirect; RetryDelay must be asked with it, so that a policy that declines from some attempt
+// number on bounds the number of retry rounds. The rounds are read off the arrival log: every member is written at
+// most once per round and a round only re-sends members of the previous one, so a round ends where a member arrives
+// that the current round already contains. A round with a MOVED / ASK reply may be a redirect round (no advance);
+// every other round that has a successor is a retry round. Flagged: a consultation whose attempt number is below
+// 1 + the number of retry rounds before it.
+func attemptsOracle(res *obs.Result, arrivals []fc.Arrival, byArgv map[string]int, cons []ro.Consult) {
+	type round struct {
+		first    int64
+		redirect bool
+		ids      map[int]bool
+	}
+	var rounds []*round
+	for _, a := range arrivals {
+		i, ok := byArgv[strings.Join(a.Argv, " ")]
+		if !ok {
+			continue
+		}
+		if len(rounds) == 0 || rounds[len(rounds)-1].ids[i] {
+			rounds = append(rounds, &round{first: a.Seq, ids: map[int]bool{}})
+		}
+		cur := rounds[len(rounds)-1]
+		cur.ids[i] = true
+		if k := replyOfArrival(a).Kind; k == "moved" || k == "ask" {
+			cur.redirect = true
+		}
+	}
+	for _, c := range cons {
+		if _, ok := byArgv[c.Cmd]; !ok {
+			continue
+		}
+		k := -1
+		for j, r := range rounds {
+			if r.first <= c.Seq {
+				k = j
+			}
+		}
+		if k < 0 {
+			continue
+		}
+		expected := 1
+		for j := 0; j < k; j++ {
+			if !rounds[j].redirect {
+				expected++
+			}
+		}
+		if c.Attempts < expected && res.Oracle == "" {
+			kinds := make([]string, len(rounds))
+			for j, r := range rounds {
+				kinds[j] = "retry"
+				if r.redirect {
+					kinds[j] = "redirect"
+				}
+			}
+			res.Oracle = fmt.Sprintf("RetryDelay was asked with attempts=%d for %q in round %d of the call, after %d retry rounds (rounds so far: %v): the attempt counter did not advance, "+
+				"a policy that declines from some attempt number on does not bound the retries", c.Attempts, c.Cmd, k+1, expected-1, kinds[:k+1])
+			res.Site, res.Class = "cluster.go:DoMulti", "attempts-not-advanced"
 		}
 	}
 }
